@@ -60,6 +60,8 @@ var universe = []string{
 	"https://b.example/p/q/r", // same key as 2
 	"http://A.EXAMPLE:8080/app",
 	"https://f.example:8443/%E2%82%AC/caf%C3%A9?u=%7Bx%7D",
+	"http://g.example/m;v=1/n,o?s=1;t=2", // sub-delimiters a URL carries unescaped: ';' is not a legal byte of a cookie value
+	"http://k;l@g.example:81/p;q",
 }
 
 var salts = map[int64]string{1: "s1-salt", 2: "other-salt!", 3: "foreign-salt"}
@@ -497,6 +499,14 @@ func (c *stickyComp) Run(h *hlib.History) (mons []hlib.Mon, ok bool) {
 		byString[u.String()] = i
 		n := url.URL{Scheme: u.Scheme, Host: u.Host, Path: u.Path}
 		facts = append(facts, 10, int64(i), 0, in.id(u.String()), 11, int64(i), 0, in.id(n.String()), 12, int64(i), 0, kin.id(ukeys[i]))
+		// the rendered URL with ';' escaped (strings.ReplaceAll): the one byte a URL carries unescaped that a cookie value cannot
+		safe := strings.ReplaceAll(u.String(), ";", "%3B")
+		facts = append(facts, 14, int64(i), 0, in.id(safe))
+		if p, err := url.Parse(safe); err == nil && keyOf(p) == ukeys[i] {
+			hlib.Count("contract_parse_rawc_ok", 1)
+		} else {
+			hlib.Count("contract_parse_rawc_FAILED", 1)
+		}
 		for _, salt := range []int64{1, 2} {
 			facts = append(facts, 13, salt, in.id(n.String()), in.id(hashStr(salt, n.String())))
 		}
